@@ -134,4 +134,9 @@ def MChain : Int → List MReq → Prop
   | _, [] => True
   | T, r :: rest => 0 < r.now ∧ T ≤ r.now ∧ 0 ≤ r.tick ∧ MChain (r.now + r.tick * ((r.resp.getD 0 : Nat) : Int)) rest
 
+/-- Round 5.  A request the allowlist makes invisible: plain DNS (a limited protocol), no profile, an
+allowlisted client, and not an ANY query under refusal. -/
+def transparent (c : Cfg) (r : MReq) : Bool :=
+  r.limited && r.prof.isNone && allowed c r.addr && !(c.refuseAny && r.qtype == qtypeANY)
+
 end Agd.Ratelimit
